@@ -191,53 +191,137 @@ theorem exportSpec_importSpec (x : Nat) (order endian : Int) (size nail : Nat) (
 
 /-! ## Faults -/
 
-/-- `out_fault_returns_0`: on an unbuffered stream whose write call containing byte `k` fails — for EVERY
-    position `k` inside what the function writes — `mpz_out_raw`, `mpz_out_str`, `mpq_out_str` and
-    `mpf_out_str` return 0 and exactly one fault fired; if `k` lies beyond the output nothing fires and the
-    functions return the byte count.  (The lemmas `write_faulty` … carry the invariant "error flag set ⇔
-    position passed `k`" through every write, i.e. induction on the position of the stream.) -/
-theorem out_fault_returns_0 (k : Nat) :
-    (∀ z : Mpz, k < (out_raw_m z).length →
-      (mpz_out_raw { failAt := some k } z).1 = 0 ∧ (mpz_out_raw { failAt := some k } z).2.fired = 1) ∧
+/-- `out_fault_returns_0` (restated for SHORT WRITES).  The stream is unbuffered over an ARBITRARY sink `f`:
+    `f pos n` is how many bytes of a write call of `n` bytes at position `pos` get through, so any prefix of any
+    write call may be all that is accepted, with or without recovery afterwards (`OStream.write`).  Then
+    * `mpz_out_raw` (one `fwrite` of the whole record) returns 0 whenever the sink took less than the whole
+      record — exactly the prefix it took has been written — and the record length otherwise;
+    * `mpz_out_str`, `mpq_out_str`, `mpf_out_str` (character-by-character `putc` and `fwrite`/`fprintf` pieces)
+      return 0 whenever the sink took fewer bytes than the text has (⇔ some write call came back short ⇔ `ferror`),
+      and the text length when it took them all; never a partial count. -/
+theorem out_fault_returns_0 (f : Nat → Nat → Nat) :
+    (∀ z : Mpz,
+      (f 0 (out_raw_m z).length < (out_raw_m z).length →
+        (mpz_out_raw { sink := f } z).1 = 0 ∧
+        (mpz_out_raw { sink := f } z).2.out = (out_raw_m z).take (f 0 (out_raw_m z).length)) ∧
+      ((out_raw_m z).length ≤ f 0 (out_raw_m z).length →
+        (mpz_out_raw { sink := f } z).1 = (out_raw_m z).length ∧ (mpz_out_raw { sink := f } z).2.out = out_raw_m z)) ∧
     (∀ base x : Int,
-      (k < mpzTextLen base x → (mpz_out_str { failAt := some k } base x).1 = 0 ∧
-          (mpz_out_str { failAt := some k } base x).2.fired = 1) ∧
-      (mpzTextLen base x ≤ k → (mpz_out_str { failAt := some k } base x).1 = mpzTextLen base x ∧
-          (mpz_out_str { failAt := some k } base x).2.fired = 0)) ∧
+      ((mpz_out_str { sink := f } base x).2.out.length < mpzTextLen base x → (mpz_out_str { sink := f } base x).1 = 0) ∧
+      ((mpz_out_str { sink := f } base x).2.out.length = mpzTextLen base x →
+        (mpz_out_str { sink := f } base x).1 = mpzTextLen base x) ∧
+      (mpz_out_str { sink := f } base x).2.out.length ≤ mpzTextLen base x ∧
+      ((mpz_out_str { sink := f } base x).2.fired ≠ 0 ↔ (mpz_out_str { sink := f } base x).2.out.length < mpzTextLen base x)) ∧
     (∀ base num den : Int,
-      (k < mpqTextLen base num den → (mpq_out_str { failAt := some k } base num den).1 = 0 ∧
-          (mpq_out_str { failAt := some k } base num den).2.fired = 1) ∧
-      (mpqTextLen base num den ≤ k → (mpq_out_str { failAt := some k } base num den).1 = mpqTextLen base num den ∧
-          (mpq_out_str { failAt := some k } base num den).2.fired = 0)) ∧
+      ((mpq_out_str { sink := f } base num den).2.out.length < mpqTextLen base num den →
+        (mpq_out_str { sink := f } base num den).1 = 0) ∧
+      ((mpq_out_str { sink := f } base num den).2.out.length = mpqTextLen base num den →
+        (mpq_out_str { sink := f } base num den).1 = mpqTextLen base num den) ∧
+      (mpq_out_str { sink := f } base num den).2.out.length ≤ mpqTextLen base num den ∧
+      ((mpq_out_str { sink := f } base num den).2.fired ≠ 0 ↔
+        (mpq_out_str { sink := f } base num den).2.out.length < mpqTextLen base num den)) ∧
     (∀ (base : Int) (str : List Nat) (exp : Int),
-      (k < mpfTextLen base str exp → (mpf_out_str { failAt := some k } base str exp).1 = 0 ∧
-          (mpf_out_str { failAt := some k } base str exp).2.fired = 1) ∧
-      (mpfTextLen base str exp ≤ k → (mpf_out_str { failAt := some k } base str exp).1 = mpfTextLen base str exp ∧
-          (mpf_out_str { failAt := some k } base str exp).2.fired = 0)) := by
-  have fin : ∀ {s : OStream} {n : Nat}, Faulty k s → s.pos = 0 + n →
-      (k < n → s.err = true ∧ s.fired = 1) ∧ (n ≤ k → s.err = false ∧ s.fired = 0) := by
-    intro s n h hp
-    obtain ⟨_, he, hf⟩ := h
-    rw [hp, Nat.zero_add] at he hf
-    constructor
-    · intro hk; exact ⟨he.mpr hk, by rw [hf]; simp [hk]⟩
-    · intro hk
-      have : ¬ k < n := by omega
-      refine ⟨?_, by rw [hf]; simp [this]⟩
-      cases h : s.err with
-      | false => rfl
-      | true => exact absurd (he.mp h) this
-  refine ⟨fun z hk => mpz_out_raw_faulty z k hk, ?_, ?_, ?_⟩
+      ((mpf_out_str { sink := f } base str exp).2.out.length < mpfTextLen base str exp →
+        (mpf_out_str { sink := f } base str exp).1 = 0) ∧
+      ((mpf_out_str { sink := f } base str exp).2.out.length = mpfTextLen base str exp →
+        (mpf_out_str { sink := f } base str exp).1 = mpfTextLen base str exp) ∧
+      (mpf_out_str { sink := f } base str exp).2.out.length ≤ mpfTextLen base str exp ∧
+      ((mpf_out_str { sink := f } base str exp).2.fired ≠ 0 ↔
+        (mpf_out_str { sink := f } base str exp).2.out.length < mpfTextLen base str exp)) := by
+  have fin : ∀ {s : OStream} {n : Nat} {r : Nat}, Faulty none s → s.pos = 0 + n →
+      (s.err = true → r = 0) → (s.err = false → r = n) →
+      (s.out.length < n → r = 0) ∧ (s.out.length = n → r = n) ∧ s.out.length ≤ n ∧ (s.fired ≠ 0 ↔ s.out.length < n) := by
+    intro s n r h hp h3 h4
+    obtain ⟨g1, g2, g3, g4⟩ := faulty_final h
+    rw [hp, Nat.zero_add] at g1 g2 g4
+    exact ⟨fun hl => h3 (g1.mpr hl), fun hl => h4 (g2.mpr hl), g4, by rw [← g3]; exact g1⟩
+  have fin' : ∀ {s : OStream} {n : Nat} {r : Int}, Faulty none s → s.pos = 0 + n →
+      (s.err = true → r = 0) → (s.err = false → r = n) →
+      (s.out.length < n → r = 0) ∧ (s.out.length = n → r = n) ∧ s.out.length ≤ n ∧ (s.fired ≠ 0 ↔ s.out.length < n) := by
+    intro s n r h hp h3 h4
+    obtain ⟨g1, g2, g3, g4⟩ := faulty_final h
+    rw [hp, Nat.zero_add] at g1 g2 g4
+    exact ⟨fun hl => h3 (g1.mpr hl), fun hl => h4 (g2.mpr hl), g4, by rw [← g3]; exact g1⟩
+  refine ⟨fun z => ?_, ?_, ?_, ?_⟩
+  · obtain ⟨a, b⟩ := mpz_out_raw_faulty z f
+    exact ⟨fun h => ⟨(a h).1, (a h).2.2⟩, fun h => ⟨(b h).1, (b h).2.2⟩⟩
   · intro base x
-    obtain ⟨a1, a2, a3, a4⟩ := mpz_out_str_faulty (faulty_init k) base x
+    obtain ⟨a1, a2, a3, a4⟩ := mpz_out_str_faulty (faulty_init f) base x
+    exact fin a1 a2 a3 a4
+  · intro base num den
+    obtain ⟨a1, a2, a3, a4⟩ := mpq_out_str_faulty (faulty_init f) base num den
+    exact fin a1 a2 a3 a4
+  · intro base str exp
+    obtain ⟨a1, a2, a3, a4⟩ := mpf_out_str_faulty (faulty_init f) base str exp
+    exact fin' a1 a2 a3 a4
+
+/-- `out_fault_at_byte`: the harness's sink — the write call containing byte `k` accepts only the bytes in front
+    of `k`, every later call nothing — for EVERY position `k`: inside the output the functions return 0 (and for
+    `mpz_out_raw` exactly `k` bytes got through), beyond it nothing fails and they return the byte count. -/
+theorem out_fault_at_byte (k : Nat) :
+    (∀ z : Mpz,
+      (k < (out_raw_m z).length →
+        (mpz_out_raw { sink := sinkFailAt k } z).1 = 0 ∧ (mpz_out_raw { sink := sinkFailAt k } z).2.fired = 1 ∧
+        (mpz_out_raw { sink := sinkFailAt k } z).2.out = (out_raw_m z).take k) ∧
+      ((out_raw_m z).length ≤ k →
+        (mpz_out_raw { sink := sinkFailAt k } z).1 = (out_raw_m z).length ∧
+        (mpz_out_raw { sink := sinkFailAt k } z).2.fired = 0)) ∧
+    (∀ base x : Int,
+      (k < mpzTextLen base x → (mpz_out_str { sink := sinkFailAt k } base x).1 = 0 ∧
+          (mpz_out_str { sink := sinkFailAt k } base x).2.fired ≠ 0) ∧
+      (mpzTextLen base x ≤ k → (mpz_out_str { sink := sinkFailAt k } base x).1 = mpzTextLen base x ∧
+          (mpz_out_str { sink := sinkFailAt k } base x).2.fired = 0)) ∧
+    (∀ base num den : Int,
+      (k < mpqTextLen base num den → (mpq_out_str { sink := sinkFailAt k } base num den).1 = 0 ∧
+          (mpq_out_str { sink := sinkFailAt k } base num den).2.fired ≠ 0) ∧
+      (mpqTextLen base num den ≤ k → (mpq_out_str { sink := sinkFailAt k } base num den).1 = mpqTextLen base num den ∧
+          (mpq_out_str { sink := sinkFailAt k } base num den).2.fired = 0)) ∧
+    (∀ (base : Int) (str : List Nat) (exp : Int),
+      (k < mpfTextLen base str exp → (mpf_out_str { sink := sinkFailAt k } base str exp).1 = 0 ∧
+          (mpf_out_str { sink := sinkFailAt k } base str exp).2.fired ≠ 0) ∧
+      (mpfTextLen base str exp ≤ k → (mpf_out_str { sink := sinkFailAt k } base str exp).1 = mpfTextLen base str exp ∧
+          (mpf_out_str { sink := sinkFailAt k } base str exp).2.fired = 0)) := by
+  have fin : ∀ {s : OStream} {n : Nat}, Faulty (some k) s → s.pos = 0 + n →
+      (k < n → s.err = true ∧ s.fired ≠ 0) ∧ (n ≤ k → s.err = false ∧ s.fired = 0) := by
+    intro s n h hp
+    obtain ⟨g1, g2, g3, g4⟩ := faulty_final h
+    have he := (h.2.2.2 k rfl).2
+    rw [hp, Nat.zero_add] at he
+    constructor
+    · intro hk; exact ⟨he.mpr hk, g3.mp (he.mpr hk)⟩
+    · intro hk
+      have hn : ¬ k < n := by omega
+      have hef : s.err = false := by
+        cases h' : s.err with
+        | false => rfl
+        | true => exact absurd (he.mp h') hn
+      refine ⟨hef, ?_⟩
+      by_contra hf
+      have := g3.mpr hf; rw [hef] at this; cases this
+  refine ⟨fun z => ?_, ?_, ?_, ?_⟩
+  · obtain ⟨a, b⟩ := mpz_out_raw_faulty z (sinkFailAt k)
+    have hlen : 4 ≤ (out_raw_m z).length := by unfold out_raw_m; simp [hdrBytes]
+    constructor
+    · intro hk
+      have e : sinkFailAt k 0 (out_raw_m z).length = k := by simp [sinkFailAt, hk]
+      have := a (by rw [e]; exact hk)
+      rw [e] at this; exact this
+    · intro hk
+      have e : sinkFailAt k 0 (out_raw_m z).length = (out_raw_m z).length := by
+        have : ¬ k < (out_raw_m z).length := by omega
+        simp [sinkFailAt, this]
+      have := b (by rw [e])
+      exact ⟨this.1, this.2.1⟩
+  · intro base x
+    obtain ⟨a1, a2, a3, a4⟩ := mpz_out_str_faulty (faulty_init_at k) base x
     obtain ⟨f1, f2⟩ := fin a1 a2
     exact ⟨fun hk => ⟨a3 (f1 hk).1, (f1 hk).2⟩, fun hk => ⟨a4 (f2 hk).1, (f2 hk).2⟩⟩
   · intro base num den
-    obtain ⟨a1, a2, a3, a4⟩ := mpq_out_str_faulty (faulty_init k) base num den
+    obtain ⟨a1, a2, a3, a4⟩ := mpq_out_str_faulty (faulty_init_at k) base num den
     obtain ⟨f1, f2⟩ := fin a1 a2
     exact ⟨fun hk => ⟨a3 (f1 hk).1, (f1 hk).2⟩, fun hk => ⟨a4 (f2 hk).1, (f2 hk).2⟩⟩
   · intro base str exp
-    obtain ⟨a1, a2, a3, a4⟩ := mpf_out_str_faulty (faulty_init k) base str exp
+    obtain ⟨a1, a2, a3, a4⟩ := mpf_out_str_faulty (faulty_init_at k) base str exp
     obtain ⟨f1, f2⟩ := fin a1 a2
     exact ⟨fun hk => ⟨a3 (f1 hk).1, (f1 hk).2⟩, fun hk => ⟨a4 (f2 hk).1, (f2 hk).2⟩⟩
 
@@ -250,13 +334,20 @@ theorem out_healthy_counts (base x num den : Int) :
   obtain ⟨_, b2, b3⟩ := mpq_out_str_healthy healthy_init base num den
   exact ⟨a3, by simpa using a2, b3, by simpa using b2⟩
 
--- non-vacuity: "-12345" with the write of byte 3 failing, and with no byte failing
-example : (mpz_out_str { failAt := some 3 } 10 (-12345)).1 = 0 ∧ (mpz_out_str { failAt := some 3 } 10 (-12345)).2.fired = 1 ∧
-    (mpz_out_str { failAt := some 6 } 10 (-12345)).1 = 6 ∧ mpzTextLen 10 (-12345) = 6 := by decide +kernel
-example : (mpq_out_str { failAt := some 2 } 16 255 (-3)).1 = 0 ∧ (mpq_out_str {} 16 255 (-3)).2.out = [102, 102, 47, 45, 51] := by
+-- non-vacuity: "-12345" with the write of byte 3 cut short (the sign and "12" got through), and with no byte failing
+example : (mpz_out_str { sink := sinkFailAt 3 } 10 (-12345)).1 = 0 ∧
+    (mpz_out_str { sink := sinkFailAt 3 } 10 (-12345)).2.out = [45, 49, 50] ∧
+    (mpz_out_str { sink := sinkFailAt 6 } 10 (-12345)).1 = 6 ∧ mpzTextLen 10 (-12345) = 6 := by decide +kernel
+-- a sink that cuts one call short and recovers (the digits after the gap get through): still 0, thanks to ferror
+example : (mpz_out_str { sink := sinkOnceAt 0 } 10 (-12345)).1 = 0 ∧
+    (mpz_out_str { sink := sinkOnceAt 0 } 10 (-12345)).2.out = [49, 50, 51, 52, 53] := by decide +kernel
+example : (mpq_out_str { sink := sinkFailAt 2 } 16 255 (-3)).1 = 0 ∧ (mpq_out_str {} 16 255 (-3)).2.out = [102, 102, 47, 45, 51] := by
   decide +kernel
-example : (mpf_out_str { failAt := some 7 } 10 [45, 49, 50, 51] 3).1 = 0 ∧ (mpf_out_str {} 10 [45, 49, 50, 51] 3).1 = 8 := by
+example : (mpf_out_str { sink := sinkFailAt 7 } 10 [45, 49, 50, 51] 3).1 = 0 ∧ (mpf_out_str {} 10 [45, 49, 50, 51] 3).1 = 8 := by
   decide +kernel
+-- mpz_out_raw of -(2^64+5) (13 bytes) on a sink that takes 9 of them: 0, not 9
+example : (mpz_out_raw { sink := fun _ _ => 9 } ⟨2, -2, [5, 1]⟩).1 = 0 ∧
+    (mpz_out_raw { sink := fun _ _ => 9 } ⟨2, -2, [5, 1]⟩).2.out = [255, 255, 255, 247, 1, 0, 0, 0, 0] := by decide +kernel
 
 /-- `in_fault_returns_0`: (a) the byte stream written by `mpz_out_raw` for `v`, cut after ANY `k` bytes
     short of its end, makes `mpz_inp_raw` return 0 with a well-formed destination; (b) a text stream that
@@ -280,23 +371,45 @@ example : ∀ k < 13, (mpz_inp_raw ⟨1, 0, [0]⟩ ⟨outRawBytes (-184467440737
   decide +kernel
 example : (mpz_inp_str_rd 7 [32, 9, 45] 10).1 = 0 ∧ (mpz_inp_str_rd 7 [32, 9, 49, 50] 10) = (4, 12, []) := by decide +kernel
 
-/-- `fprintf_fault_returns_m1`: the `gmp_fprintf` path for `"<pre>%<width>Z{d,x}<post>"` through the repaired
-    `__gmp_fprintf_funs` (commit 3cf1b4a) returns −1 for EVERY position `k` of the output at which the write
-    fails — in the literal text, the padding (written in pieces of 256), the sign or the digits. -/
-theorem fprintf_fault_returns_m1 (k : Nat) (pre : List Nat) (width base : Nat) (hb : 2 ≤ base) (x : Int)
+/-- `fprintf_fault_returns_m1` (restated for SHORT WRITES): the `gmp_fprintf` path for `"<pre>%<width>Z{d,x}<post>"`
+    through the repaired `__gmp_fprintf_funs` (commit 3cf1b4a), on an unbuffered stream over an ARBITRARY sink `f`
+    (any prefix of any write call may be all that gets through): it returns −1 exactly when some write call — of
+    the literal text, a piece of the padding (written in pieces of 256), the sign or the digits — came back short,
+    and otherwise the whole text has been taken and its length is returned; never a partial count. -/
+theorem fprintf_fault_returns_m1 (f : Nat → Nat → Nat) (pre : List Nat) (width base : Nat) (hb : 2 ≤ base) (x : Int)
+    (post : List Nat) :
+    ((gmpFprintfModel true { sink := f } pre width base x post).1 = -1 ↔
+      (gmpFprintfModel true { sink := f } pre width base x post).2.fired ≠ 0) ∧
+    ((gmpFprintfModel true { sink := f } pre width base x post).1 ≠ -1 →
+      (gmpFprintfModel true { sink := f } pre width base x post).1 = ((fprintfText pre width base x post).length : Int) ∧
+      (gmpFprintfModel true { sink := f } pre width base x post).2.out.length = (fprintfText pre width base x post).length) := by
+  obtain ⟨h, o⟩ := gmp_fprintf_stages (ko := none) { sink := f } (faulty_init f) rfl pre width base hb x post
+  obtain ⟨g1, g2, g3, g4⟩ := faulty_final h
+  rcases o with ⟨o, e⟩ | ⟨o, e, p⟩
+  · exact ⟨⟨fun _ => g3.mp e, fun _ => o⟩, fun hn => absurd o hn⟩
+  · have hne : (gmpFprintfModel true { sink := f } pre width base x post).1 ≠ -1 := by rw [o]; omega
+    refine ⟨⟨fun hh => absurd hh hne, fun hh => ?_⟩, fun _ => ⟨o, ?_⟩⟩
+    · have := g3.mpr hh; rw [e] at this; cases this
+    · rw [g2.mp e, p]; simp
+
+/-- the same for the harness's sink failing at byte `k`, for EVERY position `k` of the output: −1 -/
+theorem fprintf_fault_at_byte (k : Nat) (pre : List Nat) (width base : Nat) (hb : 2 ≤ base) (x : Int)
     (post : List Nat) (hk : k < (fprintfText pre width base x post).length) :
-    (gmpFprintfModel true { failAt := some k } pre width base x post).1 = -1 ∧
-    (gmpFprintfSpec { failAt := some k } pre width base x post).1 = -1 :=
+    (gmpFprintfModel true { sink := sinkFailAt k } pre width base x post).1 = -1 ∧
+    (gmpFprintfSpec (some k) pre width base x post).1 = -1 :=
   ⟨gmp_fprintf_fault k pre width base hb x post hk, by simp [gmpFprintfSpec, hk]⟩
 
--- non-vacuity: "ab%Zdc" with x = 12345, write of byte 3 (inside the digits) failing
-example : (gmpFprintfModel true { failAt := some 3 } [97, 98] 0 10 12345 [99]).1 = -1 ∧
+-- non-vacuity: "ab%Zdc" with x = 12345, write of byte 3 (inside the digits) cut short
+example : (gmpFprintfModel true { sink := sinkFailAt 3 } [97, 98] 0 10 12345 [99]).1 = -1 ∧
+    (gmpFprintfModel true { sink := sinkFailAt 3 } [97, 98] 0 10 12345 [99]).2.out = [97, 98, 49] ∧
     (gmpFprintfModel true {} [97, 98] 0 10 12345 [99]).1 = 8 := by decide +kernel
 /-- Why that fix matters: the code BEFORE commit 3cf1b4a (`gmp_fprintf_memory` returned `fwrite`'s short
-    count, `gmp_fprintf_reps` compared it with −1) returns 3, not −1, on the same input, and 10 when the
-    failure hits the padding of `"%10Zd"`. -/
-example : (gmpFprintfModel false { failAt := some 3 } [97, 98] 0 10 12345 [99]).1 = 3 ∧
-    (gmpFprintfModel false { failAt := some 0 } [] 10 10 12345 []).1 = 10 := by decide +kernel
+    count, `gmp_fprintf_reps` compared it with −1) returns the partial count 2 + 1 + 1 = 4 (the bytes of "ab", one
+    digit, and "c", which a recovering sink lets through), not −1, on the same input, and 10 when the failure hits
+    the padding of `"%10Zd"` (5 when the sink stays dead afterwards). -/
+example : (gmpFprintfModel false { sink := sinkOnceAt 3 } [97, 98] 0 10 12345 [99]).1 = 4 ∧
+    (gmpFprintfModel false { sink := sinkOnceAt 0 } [] 10 10 12345 []).1 = 10 ∧
+    (gmpFprintfModel false { sink := sinkFailAt 0 } [] 10 10 12345 []).1 = 5 := by decide +kernel
 
 
 /-! ## Text streams -/
